@@ -1,4 +1,4 @@
-import NucsModel.Engine.Search
+import NucsModel.Engine.Heuristics
 /-!
   The Golomb model's OWN consistency algorithm (`golomb_consistency_algorithm`,
   nucs/examples/golomb/golomb_problem.py, after the repairs 4e418a1 and d562b84): before bound consistency
